@@ -27,6 +27,29 @@ fn tname(mirror: bool, flip: bool) -> &'static str {
 /// Play one twin game. The twin is built from text / constructors of the transformed position;
 /// afterwards both games only see actions.
 #[allow(clippy::too_many_arguments)]
+/// The same queries as `observe`, asked of two states alternately.
+fn observe_interleaved(g: &GameState, h: &GameState) -> (Result<Queries, PanicInfo>, Result<Queries, PanicInfo>) {
+    let r = (|| -> Result<(Queries, Queries), PanicInfo> {
+        let rep_g = guard("valid_actions", || g.valid_actions())?;
+        let rep_h = guard("valid_actions", || h.valid_actions())?;
+        let norep_g = guard("valid_actions_no_rep", || g.valid_actions_no_rep())?;
+        let norep_h = guard("valid_actions_no_rep", || h.valid_actions_no_rep())?;
+        let term_g = guard("is_terminal", || g.is_terminal())?;
+        let term_h = guard("is_terminal", || h.is_terminal())?;
+        let mk = |norep: Vec<Action>, rep: Vec<Action>, term: Option<Terminal>| {
+            let norep_codes = codes_of(&norep);
+            let rep_codes = codes_of(&rep);
+            let pick: Vec<Code> = rep_codes.iter().copied().filter(|c| *c != u16::MAX).collect();
+            Queries { norep, norep_codes, rep, rep_codes, pick, term: decode_term(&term) }
+        };
+        Ok((mk(norep_g, rep_g, term_g), mk(norep_h, rep_h, term_h)))
+    })();
+    match r {
+        Ok((a, b)) => (Ok(a), Ok(b)),
+        Err(p) => (Err(PanicInfo { api: p.api, site: p.site.clone(), msg: p.msg.clone() }), Err(p)),
+    }
+}
+
 pub fn twin_game(rec: &mut GameRecord, mut policy: Policy, max_turns: u32, mirror: bool, flip: bool, rng: &mut Rng, st: &mut TwinStats, sink: &mut Sink) {
     sink.games += 1;
     let (board, gold, moveno, text) = match &rec.start {
@@ -67,7 +90,10 @@ pub fn twin_game(rec: &mut GameRecord, mut policy: Policy, max_turns: u32, mirro
         sink.violate("C11", clause, sig, format!("transform={} {}", tn, detail), w);
     };
     loop {
-        let (q, qh) = match (observe(&g), observe(&h)) {
+        // in every other twin game the two states are asked each question back to back (same question, game then
+        // image), instead of all questions to the game and then all to the image
+        let pair = if rec.index % 2 == 1 { observe_interleaved(&g, &h) } else { (observe(&g), observe(&h)) };
+        let (q, qh) = match pair {
             (Ok(a), Ok(b)) => (a, b),
             _ => {
                 sink.engine_panics += 1;
